@@ -41,7 +41,9 @@ RECURSIVE EmptyWalk(_, _, _)
 EmptyWalk(q, t, k) ==
   IF k = 0 THEN TRUE
   ELSE IF t \notin DOMAIN Tbl[q].actions THEN FALSE
-  ELSE LET a == Tbl[q].actions[t][1] IN
+  ELSE LET as == Tbl[q].actions[t]
+           \* the action the LR loop takes: the first one, but an empty reduction gives way to a second action if there is one (parser.py)
+           a == IF Len(as) > 1 /\ as[1].a = "R" /\ P[as[1].p+1].rhs = <<>> THEN as[2] ELSE as[1] IN
        IF a.a # "R" THEN FALSE
        ELSE IF P[a.p+1].rhs # <<>> \/ P[a.p+1].lhs \notin DOMAIN Tbl[q].gotos THEN FALSE
        ELSE EmptyWalk(Tbl[q].gotos[P[a.p+1].lhs] + 1, t, k - 1)
